@@ -1,6 +1,7 @@
 package main
 
 import (
+	"bytes"
 	"encoding/binary"
 	"fmt"
 	"os"
@@ -241,6 +242,12 @@ func seeds() []seed {
 	add("heic-items-min-II", "heif", gen.EncodeBoxes(avifBoxes(gen.EncodeTIFF(min, gen.CanonicalLayout(), II, gen.AllDirs), "heic")))
 	add("avif-items-min-MM", "avif", gen.EncodeBoxes(avifBoxes(gen.EncodeTIFF(min, gen.CanonicalLayout(), MM, gen.AllDirs), "avif")))
 	add("xmp-sidecar", "xmp", &gen.Doc{B: xp})
+	{ // token-dense packets: one look-ahead per attribute / element, many of them inside the final buffer
+		dx := denseXMP(120)
+		add("xmp-dense-tokens", "xmp", &gen.Doc{B: dx})
+		d, _ := gen.BuildJPEG([]gen.Seg{gen.SegJFIF(), gen.SegXMP(dx)}, true)
+		add("jpeg-xmp-dense-tokens", "jpeg", d)
+	}
 	// repository samples (first 8 KiB)
 	for _, pat := range []string{"testImages/*", "assets/*.jpg"} {
 		files, _ := filepath.Glob(filepath.Join(repoDir(), pat))
@@ -328,6 +335,22 @@ func sniffKind(b []byte) string {
 		return "xmp"
 	}
 	return "other"
+}
+
+// denseXMP is a packet made of n shortest-possible attributes followed by n
+// shortest-possible elements of a known namespace.
+func denseXMP(n int) []byte {
+	var b bytes.Buffer
+	b.WriteString(`<?xpacket begin="" id="W5M0MpCehiHzreSzNTczkc9d"?><x:xmpmeta xmlns:x="adobe:ns:meta/"><rdf:RDF xmlns:rdf="http://www.w3.org/1999/02/22-rdf-syntax-ns#"><rdf:Description rdf:about="" xmlns:xmp="http://ns.adobe.com/xap/1.0/"`)
+	for i := 0; i < n; i++ {
+		fmt.Fprintf(&b, ` xmp:a%d="%d"`, i%10, i%10)
+	}
+	b.WriteString(">")
+	for i := 0; i < n; i++ {
+		fmt.Fprintf(&b, `<xmp:b%d>%d</xmp:b%d>`, i%10, i%10, i%10)
+	}
+	b.WriteString(`</rdf:Description></rdf:RDF></x:xmpmeta><?xpacket end="w"?>`)
+	return b.Bytes()
 }
 
 func genSeeds() []seed {
